@@ -75,7 +75,7 @@ def run_case(case):
     return dict(viol=viols, obs=repr(sorted(outcomes))[:2000], states=list(outcomes), nontrivial=ex['executions'] > 1, ntkey=repr(case),
                 evals=ex['executions'], transitions=ex['executions'] * max(1, ex['max_points']),
                 caps=['execution cap hit for %s' % case] if ex['capped'] else [],
-                extra={'threaded_schedules': ex['executions'], 'threaded_max_points': ex['max_points']})
+                extra={'threaded_schedules': ex['executions'], 'max_threaded_points': ex['max_points']})
 
 
 def replay_one(case, violation):
